@@ -148,3 +148,47 @@ def build_crn(rxns, rules=None):
     for i, (r, p) in enumerate(rxns):
         H.add_rxn(dict(r), dict(p), rule=(rules[i] if rules else None))
     return H
+
+
+def labelled_graphs(n_max, elems=("C", "O"), orders=(1, 2), hcounts=(0, 1), connected_only=False, limit=None, rng=None):
+    """all labelled graphs on 1..n_max nodes (ids 0..n-1) over the given label sets (optionally sampled)"""
+    out = []
+    for n in range(1, n_max + 1):
+        pairs = list(itertools.combinations(range(n), 2))
+        for els in itertools.product(elems, repeat=n):
+            for hs in itertools.product(hcounts, repeat=n):
+                for labs in itertools.product((None,) + tuple(orders), repeat=len(pairs)):
+                    G = nx.Graph()
+                    for i in range(n):
+                        G.add_node(i, element=els[i], hcount=hs[i], charge=0)
+                    for (a, b), o in zip(pairs, labs):
+                        if o is not None:
+                            G.add_edge(a, b, order=o)
+                    if connected_only and n > 0 and not nx.is_connected(G):
+                        continue
+                    out.append(G)
+    if limit is not None and len(out) > limit and rng is not None:
+        out = rng.sample(out, limit)
+    return out
+
+
+def brute_monos(host, pattern, node_attrs, edge_attrs, hrule=True):
+    """all injective pattern->host maps preserving the selected labels (host hcount >= pattern hcount) and bonds"""
+    P, Hn = list(pattern.nodes), list(host.nodes)
+    res = []
+    for image in itertools.permutations(Hn, len(P)):
+        m = dict(zip(P, image))
+        ok = True
+        for p in P:
+            a, b = host.nodes[m[p]], pattern.nodes[p]
+            if any(a.get(k) != b.get(k) for k in node_attrs) or (hrule and a.get("hcount", 0) < b.get("hcount", 0)):
+                ok = False
+                break
+        if ok:
+            for p, q, d in pattern.edges(data=True):
+                if not host.has_edge(m[p], m[q]) or any(host[m[p]][m[q]].get(k) != d.get(k) for k in edge_attrs):
+                    ok = False
+                    break
+        if ok:
+            res.append(m)
+    return res
